@@ -17,7 +17,7 @@ QUANTIFIED OVER: {p['quantifier']['text']}
 Your task: make ONE realistic change to the anthem source code in {wt} (the kind of mistake a maintainer could plausibly make in a refactoring or a 'small improvement': a few lines, in one or two places) that BREAKS this property, while
   (a) the crate still compiles, and
   (b) the repository's existing test suite still passes exactly as before: run `cd {wt} && cargo test --workspace --no-fail-fast --offline 2>&1 | tail -40` before and after your change; on the unchanged tree 141 tests pass and exactly one test (`translate_examples` in tests/ui) fails; that must remain the outcome after your change (no other test may start failing).
-The change must need something SPECIFIC to manifest — a particular unusual input shape, a particular combination of options, a multi-step sequence, a particular schedule, or two cooperating sites that each look fine alone — not something that every ordinary use would expose at once. Prefer changes in the code that implements the mechanism behind the property. Do not add new cargo features, cfg flags or dependencies; do not edit existing tests.
+The change must need something SPECIFIC to manifest — a particular unusual input shape, a particular combination of options, a multi-step sequence, a particular schedule, or two cooperating sites that each look fine alone — not something that every ordinary use would expose at once. Prefer changes in the code that implements the mechanism behind the property. Do NOT use `git stash` (the stash is shared between all worktrees of the repository and other people use it): to test without your change, save `git diff > patch.diff` and use `git apply -R patch.diff` / `git apply patch.diff`. Do not add new cargo features, cfg flags or dependencies; do not edit existing tests.
 
 Deliver, in {out}/ :
   1. patch.diff — `git -C {wt} diff` of your change (source files only).
